@@ -16,12 +16,15 @@ EXPLANATION = (
     'from = X.prev_civil_sec + 1 and to = X.civil_sec for one and the same entry X. C11-bound: '
     '"strictly after" is std::upper_bound and "strictly before" is std::lower_bound followed by '
     'the predecessor, both ordered by unix_time over [begin,end) with the query instant as key, '
-    'and an exhausted search returns false. Does not decide that the two chains enumerate the '
+    'and an exhausted search returns false. C11-route: the templated next_transition / prev_transition '
+    'overloads (instantiated by a type-checked witness unit for durations finer and coarser than a second) obtain '
+    'their whole second from split_seconds, never from a cast of their own (a cast rounds toward the epoch, so a '
+    'pre-1970 transition within the same second as the query would be skipped). Does not decide that the two chains enumerate the '
     'same set nor constancy of lookup() between reported transitions.')
 LEVEL = ('Structural agreement proof between the two sibling scans and between the no-op filter and the fields '
          'lookup() exposes; complete for those clauses, silent on the value-level enumeration.')
 LEVEL_NOTE = 'Trusts clang 14 AST and sa/; std::upper_bound/lower_bound semantics are assumed (standard library).'
-TECHNIQUE = 'sibling cross-check + field-coverage comparison + symbolic pointer normal form over clang AST'
+TECHNIQUE = 'sibling cross-check + field-coverage comparison + symbolic pointer normal form over clang AST; type-checked witness instantiation for the templated overloads'
 
 
 def _fields_read(u, f, record_suffix):
@@ -96,6 +99,12 @@ def run(ctx):
                   'the same set' % (what, a[key], b[key]), construct='sib:%s' % key, detail=str(a[key])[:100])
     ctx.minimum('C11-sib', 10)
     ctx.minimum('C11-bound', 6)
+
+    # ---- C11-route: the sub-second overloads floor through split_seconds (witness instantiation shared with C18)
+    from . import c18
+    wctx, GW = c18.witness(ctx)
+    c18.check_route(ctx, wctx, GW, 'C11-route', only=('next_transition', 'prev_transition'), min_n=4)
+    ctx.minimum('C11-route', 4)
 
 
 def _scan(ctx, u, f, name, algo, role):
